@@ -76,8 +76,8 @@ pub fn rule_pool(p: u32) -> Vec<Rule> {
         // moves ?0 under the binder: no side condition, capture avoidance must come from slots
         r("sum-push", n2("mul", v(0), sum(X, v(1))), sum(X, n2("mul", v(0), v(1)))),
         rc("sum-pull", sum(X, n2("mul", v(0), v(1))), n2("mul", v(0), sum(X, v(1))), (X, 0)),
-        rc("sum-const", sum(X, v(0)), num(0), (X, 0)),
-        r("sum-var", sum(X, var(X)), num(0)),
+        rc("sum-const", sum(X, v(0)), n2("add", v(0), v(0)), (X, 0)),
+        r("sum-var", sum(X, var(X)), num(1)),
         r("let-var", let_(X, var(X), v(0)), v(0)),
         rc("let-const", let_(X, v(0), v(1)), v(0), (X, 0)),
         r("let-add", let_(X, n2("add", v(0), v(1)), v(2)), n2("add", let_(X, v(0), v(2)), let_(X, v(1), v(2)))),
@@ -88,8 +88,8 @@ pub fn rule_pool(p: u32) -> Vec<Rule> {
         // substitution form b[x := t]
         r("let-subst", let_(X, v(0), v(1)), Pat::Subst(Box::new(v(0)), Box::new(var(X)), Box::new(v(1)))),
         r("let-intro", n2("add", v(0), v(0)), let_(X, n2("add", var(X), var(X)), v(0))),
-        // two side conditions (crate combinators): sum over x of (a + b) with x in neither is p*(a+b) = 0
-        Rule { name: "sum-const-add", l: sum(X, n2("add", v(0), v(1))), r: num(0), cond: Some((X, 0)), cond2: Some((X, 1)), cond_eq: None },
+        // two side conditions (crate combinators): sum over x in {0,1} of (a + b) with x in neither
+        Rule { name: "sum-const-add", l: sum(X, n2("add", v(0), v(1))), r: n2("add", n2("add", v(0), v(1)), n2("add", v(0), v(1))), cond: Some((X, 0)), cond2: Some((X, 1)), cond_eq: None },
         // a - b = 0 if a and b are already known to be equal (all slots of a and b are covered by
         // the pattern's binders)
         Rule { name: "sum2-sub-eq", l: sum(X, sum(Y, n2("add", v(0), n1("neg", v(1))))), r: num(0), cond: None, cond2: None, cond_eq: Some((0, 1)) },
